@@ -117,7 +117,7 @@ def rule_b(repo, chk):
     for c, what in sorted(found, key=lambda t: (t[0]._mod.name, t[0].lineno)):
         key = (c._mod.name, repo.qual_of(c))
         ok = key in EXPECTED_FS
-        n += ok
+        n += 1
         chk.ob('C07.b', ok, c, 'file-system mutator `%s` (%s) is a triaged site' % (short(c, 50), what), EXPECTED_FS.get(key, 'UNLISTED writer'),
                key='fs|%s:%s|%s' % (key[0], key[1], what))
     chk.floor('C07.b', n, 5, '(file-system mutators)')
